@@ -282,6 +282,9 @@ class Verdict:
         evidence["wall_s"] = round(time.time() - t0, 2)
         evidence.setdefault("coverage", {})["known_findings_hit"] = self.known_hits
         rc = 0
+        with open(os.path.join(BUILD, "%s_violations.txt" % self.prop), "w") as f:
+            for sig, detail in self.violations:
+                f.write(sig + "\t" + json.dumps(detail)[:600] + "\n")
         if self.violations:
             rdir = os.path.join(EVID, "replays")
             os.makedirs(rdir, exist_ok=True)
@@ -294,7 +297,7 @@ class Verdict:
                 with open(path, "w") as f:
                     json.dump({"property": self.prop, "signature": sig, "detail": detail}, f, indent=1)
                 print("VIOLATION property=%s replay=%s" % (self.prop, path))
-                if len(seen) >= 25:
+                if len(seen) >= 8:
                     break
             evidence["coverage"]["violation_signatures"] = sorted({s for s, _ in self.violations})[:50]
             rc = 1
